@@ -59,3 +59,14 @@ def plain(x):
         return y + x
 
     return inner(1)
+
+
+def fallback(x):
+    if x > 0:
+        r = 1
+    else:
+        if x < -5:
+            r = 2
+        else:
+            r = 3
+    return r
